@@ -131,15 +131,25 @@ static int lit_mode()
 // stdout per program:  G <n> A=<hex> A2=<hex> Aloc=<hex> B=<hex> Bloc=<hex> A3=<hex> state=<ok|...>
 //   A: built in order, printed;  A2: printed again with a fresh printer;  A3: printed a third time after the located print;
 //   B: same program built right-to-left amid unrelated allocations.  A = A2 = A3 = B and Aloc = Bloc are C17's claims.
-static std::string print_unit(Builder& b, bool locs, std::string& state)
+// preset: how the caller left the stream before handing it to the printer (0 = as constructed)
+static std::string print_unit(Builder& b, bool locs, std::string& state, int preset = 0)
 {
    std::ostringstream os; ipr::Printer pp(b.lex, os); pp.print_locations = locs;
+   const char* preset_name[] = { "", "hex+showbase", "oct", "uppercase+left+fill+precision", "boolalpha+showpos+scientific" };
+   switch (preset) {
+   case 1: os.setf(std::ios_base::hex, std::ios_base::basefield); os.setf(std::ios_base::showbase); break;
+   case 2: os.setf(std::ios_base::oct, std::ios_base::basefield); break;
+   case 3: os.setf(std::ios_base::uppercase); os.setf(std::ios_base::left, std::ios_base::adjustfield); os.fill('*'); os.precision(3); break;
+   case 4: os.setf(std::ios_base::boolalpha | std::ios_base::showpos); os.setf(std::ios_base::scientific, std::ios_base::floatfield); break;
+   default: break;
+   }
    Snapshot s0(os, pp);
    try { pp << b.unit; }
    catch (const std::logic_error& e) { state += std::string("|logic_error:") + e.what(); }
    catch (const std::exception& e) { state += std::string("|exception:") + typeid(e).name(); }
    Snapshot s1(os, pp);
-   if (s0.flags != s1.flags or s0.fill != s1.fill or s0.width != s1.width or s0.prec != s1.prec) state += "|stream-state";
+   if (s0.flags != s1.flags or s0.fill != s1.fill or s0.width != s1.width or s0.prec != s1.prec)
+      state += std::string("|stream-state") + (preset ? std::string("(stream-handed-over-with:") + preset_name[preset] + ")" : std::string());
    if (s0.indent != s1.indent) state += "|indent:" + std::to_string(s1.indent);
    return os.str();
 }
@@ -160,6 +170,12 @@ static int prog_mode()
             a.program(x); b.program(x);
             std::string A = print_unit(a, false, state), A2 = print_unit(a, false, state), Al = print_unit(a, true, state),
                         A3 = print_unit(a, false, state), B = print_unit(b, false, state), Bl = print_unit(b, true, state);
+            // the caller's own formatting choices survive a print (with locations on, so that numbers are written)
+            for (int preset = 1; preset <= 4; ++preset) {
+               std::string st;
+               print_unit(a, true, st, preset);
+               if (st.find("stream-state") != std::string::npos or st.find("indent") != std::string::npos) state += st.substr(st.find("|stream-state") != std::string::npos ? st.find("|stream-state") : 0);
+            }
             std::printf("G %zu nloc=%u A=%s A2=%s Aloc=%s B=%s Bloc=%s A3=%s state=%s\n", n, a.located, hex(A, 1 << 20).c_str(), hex(A2, 1 << 20).c_str(),
                         hex(Al, 1 << 20).c_str(), hex(B, 1 << 20).c_str(), hex(Bl, 1 << 20).c_str(), hex(A3, 1 << 20).c_str(),
                         state.empty() ? "ok" : state.c_str());
